@@ -529,10 +529,16 @@ impl<S: Storage> Builder<S> {
             .register(id, span.clone(), output_row_counter.clone());
 
         let (tx, rx) = async_broadcast::broadcast(16);
+        #[cfg(feature = "verif")]
+        let (verif_id, verif_name) = (usize::from(id), name.clone());
         let handle = tokio::task::Builder::default()
             .name(&format!("{id}.{name}"))
             .spawn(
                 async move {
+                    #[cfg(feature = "verif")]
+                    {
+                        stream = verif_fault_stream(verif_id, verif_name, stream);
+                    }
                     while let Some(item) = stream.next().await {
                         if let Ok(chunk) = &item {
                             output_row_counter.inc(chunk.cardinality() as _);
@@ -588,4 +594,33 @@ impl Drop for AbortOnDropHandle {
     fn drop(&mut self) {
         self.0.abort();
     }
+}
+
+/// Wraps an operator's output stream with the fault-injection point of the verification
+/// harness: before item `k` is delivered (and once at the end of the stream, with
+/// `k = usize::MAX`) the fault oracle may replace the item by an error or panic.
+#[cfg(feature = "verif")]
+fn verif_fault_stream(id: usize, name: String, mut stream: BoxedExecutor) -> BoxedExecutor {
+    use crate::verif::{Fault, fault};
+    async_stream::stream! {
+        let mut k = 0usize;
+        loop {
+            let item = stream.next().await;
+            let at = if item.is_some() { k } else { usize::MAX };
+            match fault(id, &name, at) {
+                Some(Fault::Panic) => panic!("verif: injected panic in operator {id}.{name} at item {k}"),
+                Some(Fault::Error) => {
+                    yield Err(ExecutorError::aborted());
+                    return;
+                }
+                None => {}
+            }
+            match item {
+                Some(item) => yield item,
+                None => return,
+            }
+            k += 1;
+        }
+    }
+    .boxed()
 }
